@@ -5,13 +5,15 @@ Leaf names encode the type (same table in impl/t_types.c and ocaml/run_types.ml)
 
 witness(line, model_out, impl_out) compares the implementation's answer with a strict RFC 7950 reading
 (section 9.2 / 9.3 / 9.5, no white space) written down independently in Python below. Tags of the listed
-deviations of the unchanged tree:
+deviations:
   ws-tolerated         surrounding isspace() characters accepted (stated as part of the accepted language)
   nul-truncation       integer value with an embedded NUL accepted as the text before the NUL (length-taking API only)
-  dec64-sign-only      decimal64 value consisting of a sign only (and white space): accepted as 0.0
-  dec64-no-int-digits  decimal64 sign directly followed by the fraction ("-.5", "+.5"): accepted
-  dec64-overread       decimal64 value ending in '.' accepted because the byte after the value is a digit
-A disagreement with the RFC that is none of these gets the tag None."""
+A disagreement with the RFC that is none of these gets the tag None.
+
+The three decimal64 deviations of round 1 (sign only accepted as 0.0, "-.5"/"+.5" accepted, value ending in '.'
+accepted when the byte after the value is a digit) were fixed in /repo by commits f731599 and f933623; their tags
+are retired: such inputs are rejected by the RFC reading, by the model and by the code, and a reappearance is
+reported untagged (Dec64Next and Dec64ExactBuf are the regression checks for the over-read)."""
 import re
 from fractions import Fraction
 
@@ -119,7 +121,7 @@ def strip_ws(s):
     return s.strip(b" \t\n\r\x0b\x0c")
 
 
-def classify(name, s, impl, nxt=b""):
+def classify(name, s, impl):
     """impl = first token of the driver output. -> None when it is the strict RFC answer, else (tag, detail)"""
     want = rfc_store(name, s)
     if impl == want:
@@ -134,14 +136,6 @@ def classify(name, s, impl, nxt=b""):
             t = strip_ws(s.split(b"\0")[0])
             if rfc_store(name, t) == impl:
                 return "nul-truncation", det
-        if kind == "dec":
-            if t in (b"+", b"-") and impl == hexs("0.0"):
-                return "dec64-sign-only", det
-            if re.fullmatch(rb"[+-]\.[0-9]+", t) and rfc_store(name, t[:1] + b"0" + t[1:]) == impl:
-                return "dec64-no-int-digits", det
-            if nxt[:1].isdigit() and s.endswith(b".") and (rfc_store(name, strip_ws(s)[:-1]) == impl or
-                                                           (strip_ws(s)[:-1] in (b"+", b"-") and impl == hexs("0.0"))):
-                return "dec64-overread", det
     return None, det
 
 
@@ -149,11 +143,6 @@ def defect_tag(name, s):
     """tag of the listed deviation under which the (white-space stripped) value s is accepted although it is
     outside the RFC language, or None"""
     kind = type_of(name)[0]
-    t = strip_ws(s)
-    if kind == "dec" and t in (b"+", b"-"):
-        return "dec64-sign-only"
-    if kind == "dec" and re.fullmatch(rb"[+-]\.[0-9]+", t):
-        return "dec64-no-int-digits"
     if kind == "int" and b"\0" in s and not s.startswith(b"\0"):
         return "nul-truncation"
     return None
@@ -250,7 +239,7 @@ class TComp(Comp):
                 return None, "entry points disagree on %r (%s): %s" % (unhex(f[2]), f[1], o)
             if not re.fullmatch(r"E|-|([0-9a-f]{2})+", tok[0]):
                 return None, "implementation failed on %r (%s): %s" % (unhex(f[2]), f[1], o)
-            return classify(f[1], unhex(f[2]), tok[0], unhex(f[3]) if len(f) > 3 else b"")
+            return classify(f[1], unhex(f[2]), tok[0])
         if f[0] in ("cmp", "sort"):
             a, b = unhex(f[2]), unhex(f[3])
             # judge on the white-space-stripped values so that only the comparison itself is judged
@@ -398,7 +387,9 @@ class Dec64Store(TComp):
 
 
 class Dec64Next(TComp):
-    """lyplg_type_parse_dec64 reads value[len + 1] beyond value_len: lyd_value_validate with a chosen following byte"""
+    """regression of the over-read fixed by /repo commit f731599 (lyplg_type_parse_dec64 used to read value[len + 1]
+    beyond value_len): lyd_value_validate with chosen bytes placed right after the value. The model has no such
+    input any more, so the implementation's answer must not depend on them"""
     name = "decvn"
 
     def gen(self, rng, tier, scale=1.0):
@@ -550,8 +541,8 @@ class RangeCheck(TComp):
 
 class Dec64ExactBuf:
     """oracle (ASan build): lyd_value_validate() on a value held in a heap block of exactly value_len bytes must not
-    read outside the block. On the unchanged tree lyplg_type_parse_dec64 reads value[len + 1] for a value that ends
-    in a period (tag dec64-overread)."""
+    read outside the block. Regression check: before /repo commit f731599 lyplg_type_parse_dec64 read value[len + 1]
+    for a value that ends in a period; any report is now unexpected (no tag)."""
     name = "decvx"
     driver = "t_types"
     kinds = ["asan"]
@@ -572,8 +563,7 @@ class Dec64ExactBuf:
         f = line.split("\t")
         if out.startswith("CRASH") or out == "TIMEOUT":
             s = unhex(f[2])
-            tag = "dec64-overread" if f[1].startswith("d") and strip_ws(s).endswith(b".") else None
-            return tag, "lyd_value_validate(%s, %r, len %d) on an exactly sized heap block: %s" % (f[1], s, len(s), out)
+            return None, "lyd_value_validate(%s, %r, len %d) on an exactly sized heap block: %s" % (f[1], s, len(s), out)
         return None
 
 
@@ -598,7 +588,7 @@ class RfcStoreOracle:
             return None, "entry points disagree on %r (%s): %s" % (unhex(f[2]), f[1], out)
         if not re.fullmatch(r"E|-|([0-9a-f]{2})+", tok[0]):
             return None, "implementation failed on %r (%s): %s" % (unhex(f[2]), f[1], out)
-        r = classify(f[1], unhex(f[2]), tok[0], unhex(f[3]) if len(f) > 3 else b"")
+        r = classify(f[1], unhex(f[2]), tok[0])
         if r and r[0] != "ws-tolerated":
             return r
         return None
